@@ -67,7 +67,32 @@ def run(ctx):
         cells = os.path.join(ctx.scratch, "cells.sel.jsonl")
         open(cells, "w").writelines(keep)
     obs = os.path.join(ctx.scratch, "obs.ndjson")
+    # "seen fresh, replayed stale": the same signed request sent just inside and, seconds later, just outside the five
+    # minutes (real time: the probe runs beside the cells)
+    V.build_harness(ctx)
+    robs, box = os.path.join(ctx.scratch, "replay.ndjson"), {}
+
+    def side():
+        try:
+            box["s"] = V.harness(ctx, ["ag-replay", "-out", robs, "-seed", ctx.seed])
+        except BaseException as e:
+            box["err"] = e
+    import threading
+    th = threading.Thread(target=side)
+    th.start()
     s = V.harness(ctx, ["ag-cells", "-in", cells, "-out", obs, "-seed", ctx.seed, "-sample", 0, "-reps", reps, "-workers", V.NCPU])
+    th.join()
+    if "err" in box:
+        raise box["err"]
+    rv, _, _ = V.leg_v(ctx, "AuthReplayTrace", "AuthReplayTrace.cfg", robs, strip=("conc",), label="V-replay")
+    for lineno, rules in rv:
+        rec = V.read_line(robs, lineno)
+        for rule in rules:
+            if rule.startswith("HARNESS_"):
+                raise V.Machinery("replay probe: %s: %s" % (rule, json.dumps(rec)[:500]))
+            V.report(ctx, rule, rec, "%s acted on a signed request whose timestamp was %d s old (the same request had been accepted when it was %d s old): %s"
+                     % (rec["ep"], rec["age2"], rec["age1"], json.dumps(rec.get("conc"))[:400]), {"kind": "replay", "record": rec})
+    ctx.cov["stale_replay_probes"] = box["s"]["executed"]
     x = s["extra"]
     ctx.say("cells: %d emitted, %d executed (%d distinct); acts %s; Location read as %s; targets %s" % (
         n, s["executed"], s["distinct"], json.dumps(x["acts"], sort_keys=True), json.dumps(x["locs"]), json.dumps(x["targets"])))
@@ -113,6 +138,16 @@ def replay(ctx, path):
     rp = json.load(open(path))
     rec = rp["record"]
     V.build_harness(ctx)
+    if rp.get("kind") == "replay":
+        robs = os.path.join(ctx.scratch, "replay.ndjson")
+        V.harness(ctx, ["ag-replay", "-out", robs, "-seed", rp["seed"]])
+        rv, _, _ = V.leg_v(ctx, "AuthReplayTrace", "AuthReplayTrace.cfg", robs, strip=("conc",), label="V-replay")
+        for lineno, rules in rv:
+            r2 = V.read_line(robs, lineno)
+            for rule in rules:
+                V.report(ctx, rule, r2, "%s acted on a signed request whose timestamp was %d s old" % (r2["ep"], r2["age2"]), {"kind": "replay", "record": r2})
+        print(open(robs).read())
+        return V.finish(ctx, RULE)
     one = os.path.join(ctx.scratch, "one.jsonl")
     open(one, "w").write(json.dumps({"c": rec["c"]}) + "\n")
     obs = os.path.join(ctx.scratch, "obs.ndjson")
